@@ -10,6 +10,7 @@ token-level mutations of those files.
 import os
 import sys
 import tokenize
+import traceback
 import io
 
 import cdd.shared.cst
@@ -192,7 +193,14 @@ def mutate(r, src):
 
 
 def run_one(P, src):
-    cdd.shared.cst.cst_parse(src)  # contracts on cst_parse and on the nested cst_scanner fire
+    try:
+        cdd.shared.cst.cst_parse(src)  # contracts on cst_parse and on the nested cst_scanner fire
+    except Exception as e:
+        # "for every string whatsoever": a string for which no node list comes back is not reproduced
+        tb = traceback.extract_tb(e.__traceback__)
+        inside = [f for f in tb if os.path.join("cdd", "shared") in f.filename]
+        violation(P, "cst_parse", "raises-" + type(e).__name__, src, "%r at %s" % (
+            e, "%s:%s" % (os.path.basename(inside[-1].filename), inside[-1].name) if inside else "?"))
 
 
 def run_case(ctx, P, stream, idx):
